@@ -39,6 +39,8 @@ func init() {
 			ruleTypeSwitchExhaustive(r, enginePkg, "", "buildLabelPredicate", logqlPkg, "LabelPredicate", 7, false)
 			ruleNilNil(r, []string{enginePkg}, map[string]string{})
 			ruleLineFilterBuilder(r)
+			ruleErrorPathKeepsLine(r, []string{"UnpackExtractor", "LineFormat"}) // "unless a formatting stage rewrote it, its original line": a stage that fails leaves the line alone
+			ruleDistinct(r)
 		},
 	})
 }
